@@ -46,9 +46,11 @@ META = {
 # ------------------------------------------------------------------------------------------------
 # the key universe, the values, the payload kinds
 
-KEYS = ["a", "n.x", "n.y", "l", "d"]
-CODE_DEFAULTS = {"a": 1, "n.x": 2, "n.y": 3, "l": [4], "d": {"p": 5}}
-UNSET_DEFAULTS = {"a": 1, "n.x": 2, "n.y": 3, "l": None, "d": None}  # shape flat0: list / dict not built yet
+KEYS = ["a", "n.x", "n.y", "l", "d", "t"]
+# t is a str-typed flat key: the only kind of key for which the empty string is a valid value.  Its values name the
+# writer like the integers do ("v11" = written by D1, "v6" = code default)
+CODE_DEFAULTS = {"a": 1, "n.x": 2, "n.y": 3, "l": [4], "d": {"p": 5}, "t": "v6"}
+UNSET_DEFAULTS = {"a": 1, "n.x": 2, "n.y": 3, "l": None, "d": None, "t": "v6"}  # shape flat0: list / dict not built yet
 
 # value written by each non-CLI source (the tens digit names the source)
 VAL = {"D1": 11, "Ga": 21, "Gb": 22, "D3": 31, "envcfg": 41, "envvar": 51, "given": 56}
@@ -67,16 +69,23 @@ def cli_value(pos):
 def payload(kind, v):
     """JSON document of one config source of the given kind carrying the value v."""
     if kind == "R":  # replaces everything it mentions (the dict as a whole; the group leaf-wise)
-        return {"a": v, "n": {"x": v}, "l": [v], "d": {"k": v, f"s{v}": v}}
+        return {"a": v, "n": {"x": v}, "l": [v], "d": {"k": v, f"s{v}": v}, "t": f"v{v}"}
     if kind == "A":  # appends a list to the list built so far, sets the other leaf of the group
         return {"l+": [v], "n": {"y": v}}
     if kind == "A1":  # appends a single element, replaces the flat key
         return {"l+": v, "a": v}
     if kind == "N":  # whole group and a dict only
         return {"n": {"x": v, "y": v}, "d": {f"s{v}": v}}
-    if kind == "E":  # empty document (used when a deviation is localised by removing sources)
+    if kind == "Z":  # plain assignments of the EMPTY value of every key type (all falsy in Python)
+        return {"a": 0, "n": {"x": 0}, "l": [], "d": {}, "t": ""}
+    if kind in ("E", "E0", "EW"):  # a document that assigns nothing: "{}" / a file of 0 bytes / a whitespace-only file
         return {}
     raise AssertionError(kind)
+
+
+# content of a default config file that exists but is empty (explicitly given configs must not be empty: the library
+# rejects them as "Unexpected config", which is input validation and not this property)
+RAW_CONTENT = {"E0": "", "EW": " \n\n"}
 
 
 def assignments_of_config(doc):
@@ -118,6 +127,9 @@ def fold(initial, sources):
 
 CLI_ITEMS = ["a", "n.x", "n.y", "l", "l+", "l+2", "d", "d.k", "cfgfile:R", "cfgfile:A", "cfgstr:R", "cfgstr:A"]
 CLI_EXTRA = ["cfgfile:A1", "cfgstr:N", "d.p", "n", "nfile"]  # used in the secondary blocks (n, nfile: shape dc)
+# items that assign the empty value of a key type / give a document that assigns empty values or nothing at all
+# (t: the str key with a non-empty value), used in the "empty-values" blocks
+CLI_EMPTY = ["t", "t0", "a0", "l0", "d0", "cfgstr:Z", "cfgfile:Z", "cfgstr:E", "cfgfile:E"]
 ROOT_ITEMS = ["rootcfgfile:R", "rootcfgfile:A", "rootcfgstr:R", "rootcfgstr:A"]  # subcommand shape, before the subcommand
 
 
@@ -127,6 +139,16 @@ def cli_item(name, pos, shape, d):
     files = {}
     if name == "a":
         return f"--a={v}", [("a", "set", v)], files
+    if name == "t":
+        return f"--t=v{v}", [("t", "set", f"v{v}")], files
+    if name == "t0":
+        return "--t=", [("t", "set", "")], files
+    if name == "a0":
+        return "--a=0", [("a", "set", 0)], files
+    if name == "l0":
+        return "--l=[]", [("l", "set", [])], files
+    if name == "d0":
+        return "--d={}", [("d", "set", {})], files
     if name in ("n.x", "n.y"):
         return f"--{name}={v}", [(name, "set", v)], files
     if name == "l":
@@ -176,6 +198,7 @@ def add_keys(parser, shape, J):
 
     parser.add_argument("--cfg", action=J.ActionConfigFile)
     parser.add_argument("--a", type=int, default=1)
+    parser.add_argument("--t", type=str, default="v6")
     if shape == "dc":
         parser.add_argument("--n", type=NGroup, default=NGroup())
     else:
@@ -248,7 +271,8 @@ def noncli_sources(case):
         kind = dcf.get(slot)
         if kind:
             doc = payload(kind, VAL[slot])
-            files[DCF_FILE[slot]] = wrap(case, doc)
+            # a str instead of a document = the raw content of the file (an existing but empty file)
+            files[DCF_FILE[slot]] = RAW_CONTENT[kind] if kind in RAW_CONTENT else wrap(case, doc)
             sources.append(("default_config:" + slot, assignments_of_config(doc)))
     on = env_enabled(case)
     envcfg = case.get("envcfg")
@@ -279,6 +303,25 @@ def noncli_sources(case):
             doc = {"k": v, f"e{v}": v}
             environ[pre + "D"] = json.dumps(doc)
             ev.append(("d", "set", doc))
+        elif key == "t":
+            environ[pre + "T"] = f"v{v}"
+            ev.append(("t", "set", f"v{v}"))
+        # variables that carry the empty value of the key's type (the variable is present, its value is "" / 0 / [] / {})
+        elif key == "t0":
+            environ[pre + "T"] = ""
+            ev.append(("t", "set", ""))
+        elif key == "a0":
+            environ[pre + "A"] = "0"
+            ev.append(("a", "set", 0))
+        elif key == "n.x0":
+            environ[pre + "N__X"] = "0"
+            ev.append(("n.x", "set", 0))
+        elif key == "l0":
+            environ[pre + "L"] = "[]"
+            ev.append(("l", "set", []))
+        elif key == "d0":
+            environ[pre + "D"] = "{}"
+            ev.append(("d", "set", {}))
         else:
             raise AssertionError(key)
     if ev and on:
@@ -332,7 +375,10 @@ def observe(base, clis):
         pre_sources, files, environ = noncli_sources(base)
         for fn in sorted(files, reverse=True):  # the files of the glob are created in reverse name order
             with open(os.path.join(d, fn), "w") as f:
-                json.dump(files[fn], f)
+                if isinstance(files[fn], str):
+                    f.write(files[fn])
+                else:
+                    json.dump(files[fn], f)
         for k, v in environ.items():
             if v.startswith("@FILE@"):
                 v = os.path.join(d, v[6:])
@@ -410,8 +456,12 @@ def initial_state(base):
 
 def _src_of(value):
     """Source class encoded in a value."""
+    if type(value) is str and value[:1] == "v" and value[1:].isdigit():
+        value = int(value[1:])
     if type(value) is not int:
-        return "?"
+        return "empty-value" if value in ("", [], {}) else "?"
+    if value == 0:
+        return "empty-value"
     if value < 10:
         return "code_default"
     if value == VAL["given"]:
@@ -420,7 +470,7 @@ def _src_of(value):
 
 
 def ktype(key):
-    return {"a": "flat", "n.x": "nested", "n.y": "nested", "l": "list", "d": "dict"}[key]
+    return {"a": "flat", "n.x": "nested", "n.y": "nested", "l": "list", "d": "dict", "t": "str"}[key]
 
 
 def describe(key, prev, expected, got, sub=False):
@@ -429,11 +479,13 @@ def describe(key, prev, expected, got, sub=False):
     if got == ABSENT:
         return f"{kt}:key-missing-in-result"
     if got == prev and type(got) is type(prev) and expected != prev:
+        if type(expected) in (int, str, list, dict) and not expected:
+            return "assignment-of-an-empty-value-had-no-effect"  # "", 0, [], {}: treated as "not given"
         return "assignment-had-no-effect"
     if expected == prev and type(expected) is type(prev):
         return f"{kt}:key-changed-by-a-source-that-does-not-mention-it"
-    if kt in ("flat", "nested"):
-        if type(got) is not int:
+    if kt in ("flat", "nested", "str"):
+        if type(got) is not (str if kt == "str" else int):
             return f"{kt}:wrong-type"
         return f"{kt}:winner={_src_of(got)}"
     if kt == "list":
@@ -608,6 +660,10 @@ def judge(base, clis):
                                 what = "source-applied-although-the-environment-is-switched-off"
                             # the trigger of "source ignored" in the subcommand shape is how the subcommand was selected
                             tag = sel_tag if what == "assignment-had-no-effect" else ""
+                            if added in DCF_SLOTS and any(
+                                (base.get("dcf") or {}).get(s_) in RAW_CONTENT for s_ in DCF_SLOTS[: DCF_SLOTS.index(added)]
+                            ):
+                                tag += ":after-an-empty-default-config-file"
                             devs.append(
                                 {
                                     "signature": f"{fam}{what}:by={origin_class(base, name)}{tag}",
@@ -630,6 +686,10 @@ def judge(base, clis):
             "last": origin_class(base, sources[-1][0]).split(":")[0] if sources else "code_default",
             "ops": sorted({op for _n, a in sources for _k, op, _v in a}),
             "model": json.dumps(want, sort_keys=True),
+            # source classes that give a document assigning nothing / assign the empty value of a key type
+            "nothing": sorted({origin_class(base, n).split(":")[0] for n, a in sources if not a}),
+            "empty": sorted({origin_class(base, n).split(":")[0] for n, a in sources for _k, op, v in a if op == "set" and v in (0, "", [], {})}),
+            "empty_overrides": _empty_overrides(init, sources),
             "inherited": inherited,
             "agrees": o["kind"] == "ok" and not [k for k in KEYS if o["typed"][k] != tcanon(want[k])],
         }
@@ -637,6 +697,22 @@ def judge(base, clis):
     if results:
         results[0][2]["aux"] = aux[0]
     return results
+
+
+def _empty_overrides(init, sources):
+    """Does an empty value ("" / 0 / [] / {}) replace a non-empty one in this history, or is something appended /
+    set as an item after an empty value was assigned (the cases in which 'falsy = not given' would show)?"""
+    state = copy.deepcopy(init)
+    hit = False
+    for _n, assigns in sources:
+        for key, op, val in assigns:
+            if op == "set" and val in (0, "", [], {}) and state[key]:
+                hit = True
+            new = fold(state, [("", [(key, op, val)])])
+            if op in ("append", "item") and state[key] in ([], {}):
+                hit = True
+            state = new
+    return hit
 
 
 def _worker(item):
@@ -658,6 +734,9 @@ def _worker(item):
         "ops": sorted({op for _c, _d, i in out for op in i["ops"]}),
         "models": sorted({i["model"] for _c, _d, i in out}),
         "last": sorted({i["last"] for _c, _d, i in out}),
+        "nothing": sorted({x for _c, _d, i in out for x in i["nothing"]}),
+        "empty": sorted({x for _c, _d, i in out for x in i["empty"]}),
+        "empty_overrides": sum(1 for _c, _d, i in out if i["empty_overrides"]),
         "cpu": cpu,
     }
     return base, devs, stats
@@ -702,6 +781,12 @@ def dcf_configs(level):
                 c["D3"] = "A"
             out.append(c)
         return out
+    if level == "empties":  # every one of the four files absent / R / A / empty values / 0 bytes, >= 1 of the latter two
+        out = []
+        for ks in itertools.product((None, "R", "A", "Z", "E0"), repeat=4):
+            if "Z" in ks or "E0" in ks:
+                out.append({slot: k for slot, k in zip(DCF_SLOTS, ks) if k})
+        return out
     if level == "kinds":  # every slot absent / R / A, the glob with (A,R), (R,A) or one file only: 3*5*3 = 45
         out = []
         for d1 in (None, "R", "A"):
@@ -722,7 +807,8 @@ def dcf_configs(level):
     raise AssertionError(level)
 
 
-ENVVARS_ALL = ["a", "n.x", "l", "d"]
+ENVVARS_ALL = ["a", "n.x", "l", "d", "t"]
+ENVVARS_EMPTY = ["a0", "n.x0", "l0", "d0", "t0"]  # every variable present, carrying the empty value of its type
 
 
 def env_configs(level):
@@ -736,6 +822,39 @@ def env_configs(level):
     if level == "wide":
         evs += [["a"], ["l"], ["d"], ["n.x", "n.y"]]
     return [(c, e) for c in cfgs for e in evs]
+
+
+def empties_bases(shape, small=False, method="parse_args", givens=(None,), modes=("on",)):
+    """Every non-CLI source class is absent / carries its standard payload / carries EMPTY content: default config
+    files with empty values, of 0 bytes, whitespace only; an env config that assigns empty values (or nothing: {});
+    env variables that are present with the empty value of their type.  small: the three default config slots go
+    together (all absent / all standard / all empty) and the env config may also be the document {}."""
+    d1s = (None, "R", "Z")
+    gs = (None, ("A", "R"), ("E0", "Z"))
+    d3s = (None, "A", "EW")
+    if small:
+        dcfs = [{}, {"D1": "R", "Ga": "A", "Gb": "R", "D3": "A"}, {"D1": "Z", "Ga": "E0", "Gb": "Z", "D3": "EW"}]
+    else:
+        dcfs = []
+        for d1, g, d3 in itertools.product(d1s, gs, d3s):
+            c = {}
+            if d1:
+                c["D1"] = d1
+            if g:
+                c["Ga"], c["Gb"] = g
+            if d3:
+                c["D3"] = d3
+            dcfs.append(c)
+    envcfgs = [None, ["R", "str"], ["Z", "str"]] + ([["E", "str"]] if small else [])
+    for dcf in dcfs:
+        for envcfg in envcfgs:
+            for envvars in ([], ENVVARS_ALL, ENVVARS_EMPTY):
+                for mode in modes:
+                    for given in givens:
+                        b = {"shape": shape, "mode": mode, "listed": "all", "dcf": dcf, "envcfg": envcfg, "envvars": envvars, "method": method}
+                        if given:
+                            b["given"] = given
+                        yield b
 
 
 def bases(shape, dcf_level, env_level, modes=("on",), listed=("all",), method="parse_args", givens=(None,)):
@@ -753,15 +872,19 @@ def bases(shape, dcf_level, env_level, modes=("on",), listed=("all",), method="p
 SUB_ITEMS = ["a", "n.x", "l", "l+", "d", "d.k", "cfgfile:A", "cfgstr:R"]  # items of the subcommand's own parser
 
 
-def sub_sequences(maxlen, root_max=2):
+def sub_sequences_over(root_items, sub_items, maxlen, root_max=2):
     """Subcommand shape: root-level --cfg items (before the subcommand token), then items of the subcommand."""
     out = []
     for n in range(0, maxlen + 1):
         for r in range(0, min(n, root_max) + 1):
-            for rs in itertools.product(ROOT_ITEMS, repeat=r):
-                for ss in itertools.product(SUB_ITEMS, repeat=n - r):
+            for rs in itertools.product(root_items, repeat=r):
+                for ss in itertools.product(sub_items, repeat=n - r):
                     out.append(list(rs) + list(ss))
     return out
+
+
+def sub_sequences(maxlen, root_max=2):
+    return sub_sequences_over(ROOT_ITEMS, SUB_ITEMS, maxlen, root_max)
 
 
 ALL_MODES = ("on", "off", "envon", "envoff", "argon", "argoff")
@@ -786,7 +909,9 @@ def plan(ctx):
     A = CLI_ITEMS
     # B1 depth on the command line: every sequence up to the bound on {no default config file, all four} x
     #    {no env config, replacing, appending} x {no env variables, all}
-    deep = [x for x in A if x != "n.y"] if quick else A  # (n.y behaves like n.x; it stays in B3 / B4)
+    # quick: n.y behaves like n.x, an appending config string like an appending config file (file A and string R
+    # stay, so both forms and both kinds are there at depth 3); both items stay in B3 / B4 up to length 2
+    deep = [x for x in A if x not in ("n.y", "cfgstr:A")] if quick else A
     # 8 of the 12 combinations: with an env config, the env variables go together with the default config files
     # (the other four are covered one notch shallower by B3)
     deep_bases = [b for b in bases("flat", "two", "std") if bool(b["dcf"]) == bool(b["envvars"]) or b["envcfg"] is None]
@@ -835,6 +960,34 @@ def plan(ctx):
             given = [dict(b, env_subcommand=es) for b in given for es in ((False, True) if b["mode"] == "on" else (False,))]
         blocks.append((f"parse_env-{shape}", [b for b in pe if selectable(b)], [[]]))
         blocks.append((f"given-config-{shape}", given, [[]]))
+    # B8 EMPTY values and EMPTY documents (every one is falsy in Python: the class "given but empty = not given").
+    # B8a default config files: every one of the four files absent / R / A / empty values / 0 bytes
+    for shape in ("flat",) if quick else ("flat", "dc", "flat0"):
+        ls = ("all",) if quick else ("all", "existing")
+        blocks.append((f"empty-default-config-{shape}", list(bases(shape, "empties", "none", listed=ls, method="get_defaults")), [[]]))
+    # B8b every non-CLI source class absent / standard / empty x every single item of the empties alphabet, and
+    #     every sequence of two such items (incl. l=[] then l+, d={} then d.k, t= then t=v) on the small bases
+    E1 = ["t0", "a0", "l0", "d0", "l+", "d.k", "cfgstr:Z"]
+    E2 = CLI_EMPTY + ["l+", "d.k"]
+    blocks.append(("empty-values-wide", list(empties_bases("flat")), list(sequences(E1 if quick else E2, 1))))
+    blocks.append(("empty-values-cli", list(empties_bases("flat", small=True)), list(sequences(E2, 2 if quick else 3))))
+    for shape in ("dc", "flat0"):
+        blocks.append((f"empty-values-{shape}", list(empties_bases(shape, small=True)), list(sequences(E2, 1 if quick else 2))))
+    # B8c the other parse methods and the environment switches on the same bases
+    em = []
+    for m in ("parse_env", "parse_env_dict"):
+        em += list(empties_bases("flat", small=quick, method=m))
+    for m in ("parse_string", "parse_object", "parse_path"):
+        em += list(empties_bases("flat", small=True, method=m, givens=("R", "A", "Z", "E")))
+    em += list(empties_bases("flat", small=True, modes=ALL_MODES[1:]))
+    blocks.append(("empty-values-methods", em, [[]]))
+    # B8d inside a subcommand (root-level documents with s: {...}, variables APP_S__*)
+    sube = []
+    for b in empties_bases("sub", small=True, modes=("on", "off")):
+        for es in (False, True) if b["mode"] == "on" else (False,):
+            sube.append(dict(b, env_subcommand=es))
+    SE = ["t0", "l0", "l+", "d.k", "rootcfgstr:Z", "cfgstr:Z"]
+    blocks.append(("empty-values-sub", sube, [[]] + [[x] for x in SE] if quick else sub_sequences_over(["rootcfgstr:Z", "rootcfgstr:R"], SE[:4] + ["cfgstr:Z"], 2)))
     if only:
         blocks = [b for b in blocks if any(b[0].startswith(o) for o in only.split(","))]
     return blocks
@@ -880,12 +1033,15 @@ def explore(ctx):
         block_sizes[name] = n
     tot = collections.Counter()
     models, ops, last = set(), set(), set()
+    nothing, empty = set(), set()
     cpu_per_block = collections.Counter()
     per_axis = collections.Counter()
     for base, devs, st in ctx.pmap(_worker, items, chunk=1):
         cpu_per_block[base.pop("_block")] += st["cpu"]
-        for k in ("n", "steps", "multi", "ok", "agree", "inherited", "aux"):
+        for k in ("n", "steps", "multi", "ok", "agree", "inherited", "aux", "empty_overrides"):
             tot[k] += st[k]
+        nothing.update(st["nothing"])
+        empty.update(st["empty"])
         for axis in ("shape", "method", "mode"):
             per_axis[axis + "=" + str(base.get(axis))] += st["n"]
         per_axis["environment=" + ("applies" if env_enabled(base) else "ignored")] += st["n"]
@@ -921,7 +1077,9 @@ def explore(ctx):
             "cli_alphabet_extra": CLI_EXTRA,
             "root_level_items": ROOT_ITEMS,
             "keys": KEYS,
-            "payload_kinds": {k: payload(k, 0) for k in ("R", "A", "A1", "N")},
+            "cli_alphabet_empty_values": CLI_EMPTY,
+            "payload_kinds": {k: payload(k, 0) for k in ("R", "A", "A1", "N", "Z", "E")},
+            "empty_default_config_file_contents": RAW_CONTENT,
         },
         worker_cpu_seconds_per_block={k: round(v, 1) for k, v in cpu_per_block.items()},
         histories_per_axis_value=dict(sorted(per_axis.items())),
@@ -931,6 +1089,9 @@ def explore(ctx):
         histories_with_only_inherited_deviation=tot["inherited"],
         auxiliary_runs=tot["aux"],
         last_source_classes=sorted(last),
+        histories_in_which_an_empty_value_overrides_or_is_built_upon=tot["empty_overrides"],
+        source_classes_assigning_an_empty_value=sorted(empty),
+        source_classes_giving_a_document_that_assigns_nothing=sorted(nothing),
     )
     ctx.assume("the explicit config of parse_string / parse_object / parse_path is the last source (after the environment)")
     ctx.assume("bookkeeping keys (cfg, __default_config__, __path__) are not judged")
@@ -949,3 +1110,9 @@ def explore(ctx):
             {"code_default", "default_config", "env_config", "env_var", "cli", "given", "root-level-config"} <= last,
             "every source class is the last writer in some history",
         )
+        ctx.require(
+            {"default_config", "env_config", "env_var", "cli", "given", "root-level-config"} <= empty,
+            "every source class assigns an empty value (\"\" / 0 / [] / {}) in some history",
+        )
+        ctx.require({"default_config", "env_config", "cli", "given"} <= nothing, "every config source class gives an empty document in some history")
+        ctx.require(tot["empty_overrides"] >= 2000, "at least 2000 histories in which an empty value overrides a non-empty one or is built upon")
